@@ -38,4 +38,210 @@ theorem nodup1_K : (nodupBy (fun a b : Pair => a.1 == b.1) states1 && nodupBy (f
 theorem nodup2_K : (nodupBy (fun a b : Pair => a.1 == b.1) states2 && nodupBy (fun a b : Pair => a.2 == b.2) states2) = true := by
   decide +kernel
 
+/-! ### from the Boolean checks to statements -/
+
+theorem tabOfVec_sound (all : List Pair) (v : Vec) (t : Tab) (h : (tabOfVec all v == some t) = true) :
+    (t, v) ∈ all := by
+  rw [beq_iff_eq] at h
+  unfold tabOfVec at h
+  cases hf : all.find? (fun tv => tv.2 == v) with
+  | none => rw [hf] at h; cases h
+  | some tv =>
+    rw [hf] at h
+    have h1 : tv.1 = t := by simpa using h
+    have h2 : tv.2 = v := by simpa using List.find?_some hf
+    have h3 := List.mem_of_find?_eq_some hf
+    rw [← h1, ← h2]; exact h3
+
+theorem gatesOk_sound (pr : Params) (n : Nat) (all : List Pair) (tv : Pair) (h : gatesOk pr n all tv = true) :
+    ∀ gb ∈ gateOps n, ∃ t', stepT pr tv.1 gb.1 gb.2 = .ok t' ∧ (t', stepV n tv.2 gb.1 gb.2) ∈ all := by
+  intro gb hgb
+  have := (List.all_eq_true.mp h) gb hgb
+  cases hs : stepT pr tv.1 gb.1 gb.2 with
+  | ok t => rw [hs] at this; exact ⟨t, rfl, tabOfVec_sound _ _ _ this⟩
+  | err e => rw [hs] at this; cases this
+  | panic s => rw [hs] at this; cases this
+  | oob => rw [hs] at this; cases this
+
+/-- what the measurement check says about one state and qubit -/
+def MeasureAgrees (pr : Params) (n : Nat) (all : List Pair) (tv : Pair) (q : Nat) : Prop :=
+  (∃ b, tv.1.measure q = .ok (.deterministic b) ∧ measKind n q tv.2 = .certain b) ∨
+  (∃ i, tv.1.measure q = .ok (.random i) ∧ measKind n q tv.2 = .fair ∧
+    ∀ b : Bool, ∃ t', tv.1.collapse pr.ph i q b = .ok t' ∧ (t', Z8.canonRay (proj n q b tv.2)) ∈ all)
+
+theorem measureOk_sound (pr : Params) (n : Nat) (all : List Pair) (tv : Pair) (q : Nat)
+    (h : measureOk pr n all tv q = true) : MeasureAgrees pr n all tv q := by
+  unfold measureOk at h
+  split at h
+  · rename_i b b' hm hk
+    left; exact ⟨b, hm, by rw [hk, beq_iff_eq.mp h]⟩
+  · rename_i i hm hk
+    right
+    refine ⟨i, hm, hk, fun b => ?_⟩
+    have hb := (List.all_eq_true.mp h) b (by cases b <;> simp)
+    cases hc : tv.1.collapse pr.ph i q b with
+    | ok t => rw [hc] at hb; exact ⟨t, rfl, tabOfVec_sound _ _ _ hb⟩
+    | err e => rw [hc] at hb; cases hb
+    | panic s => rw [hc] at hb; cases hb
+    | oob => rw [hc] at hb; cases hb
+  · cases h
+
+/-- what the reset check says: the model returns; whenever the correct result of the reset is a pure state
+`w` the model's tableau is the tableau of `w`; otherwise (random qubit entangled with the rest, D4) the
+model returns the tableau of the outcome-0 branch `P₀ψ` alone -/
+def ResetAgrees (pr : Params) (n : Nat) (all : List Pair) (tv : Pair) (q : Nat) : Prop :=
+  ∃ t', tv.1.reset pr.ph q = .ok t' ∧
+    (∀ w, resetPure n q tv.2 = some w → (t', w) ∈ all) ∧
+    (resetPure n q tv.2 = none → (t', Z8.canonRay (proj n q false tv.2)) ∈ all)
+
+theorem resetOk_sound (pr : Params) (n : Nat) (all : List Pair) (tv : Pair) (q : Nat)
+    (h : resetOk pr n all tv q = true) : ResetAgrees pr n all tv q := by
+  unfold resetOk at h
+  cases hr : tv.1.reset pr.ph q with
+  | ok t =>
+    rw [hr] at h
+    refine ⟨t, rfl, ?_, ?_⟩
+    · intro w hw; rw [hw] at h; exact tabOfVec_sound _ _ _ h
+    · intro hn; rw [hn] at h; exact tabOfVec_sound _ _ _ h
+  | err e => rw [hr] at h; cases h
+  | panic s => rw [hr] at h; cases h
+  | oob => rw [hr] at h; cases h
+
+theorem nodupBy_inj {α} (eq : α → α → Bool) (hsymm : ∀ a b, eq a b = eq b a) :
+    ∀ l : List α, nodupBy eq l = true → ∀ a ∈ l, ∀ b ∈ l, eq a b = true → a = b := by
+  intro l
+  induction l with
+  | nil => intro _ a ha; cases ha
+  | cons x xs ih =>
+    intro h a ha b hb hab
+    simp only [nodupBy, Bool.and_eq_true, Bool.not_eq_true', List.any_eq_false] at h
+    rcases List.mem_cons.mp ha with rfl | ha' <;> rcases List.mem_cons.mp hb with rfl | hb'
+    · rfl
+    · exact absurd hab (h.1 b hb')
+    · rw [hsymm] at hab; exact absurd hab (h.1 a ha')
+    · exact ih h.2 a ha' b hb' hab
+
+/-- the enumerated states of `n` qubits (`n = 1, 2`; empty otherwise) -/
+def statesOf : Nat → List Pair
+  | 1 => states1
+  | 2 => states2
+  | _ => []
+
+theorem mem_states2_chunk (tv : Pair) (h : tv ∈ states2) : ∃ k, k < 4 ∧ tv ∈ chunk k := by
+  rw [states2_chunks] at h
+  simp only [List.mem_append] at h
+  rcases h with ((h | h) | h) | h
+  · exact ⟨0, by decide, h⟩
+  · exact ⟨1, by decide, h⟩
+  · exact ⟨2, by decide, h⟩
+  · exact ⟨3, by decide, h⟩
+
+theorem gatesOk_all (n : Nat) (tv : Pair) (h : tv ∈ statesOf n) : gatesOk paramsK n (statesOf n) tv = true := by
+  match n, h with
+  | 1, h => exact List.all_eq_true.mp gates1_K tv h
+  | 2, h =>
+    obtain ⟨k, hk, hm⟩ := mem_states2_chunk tv h
+    have : k = 0 ∨ k = 1 ∨ k = 2 ∨ k = 3 := by omega
+    rcases this with rfl | rfl | rfl | rfl
+    · exact List.all_eq_true.mp gates2_K0 tv hm
+    · exact List.all_eq_true.mp gates2_K1 tv hm
+    · exact List.all_eq_true.mp gates2_K2 tv hm
+    · exact List.all_eq_true.mp gates2_K3 tv hm
+  | 0, h => cases h
+  | _ + 3, h => cases h
+
+theorem gates_exhaustive (n : Nat) (tv : Pair) (h : tv ∈ statesOf n) :
+    ∀ gb ∈ gateOps n, ∃ t', stepT params tv.1 gb.1 gb.2 = .ok t' ∧ (t', stepV n tv.2 gb.1 gb.2) ∈ statesOf n := by
+  rw [params_eq]; exact gatesOk_sound _ _ _ _ (gatesOk_all n tv h)
+
+theorem measure_exhaustive (n : Nat) (tv : Pair) (h : tv ∈ statesOf n) (q : Nat) (hq : q < n) :
+    MeasureAgrees params n (statesOf n) tv q := by
+  rw [params_eq]
+  match n, h with
+  | 1, h => exact measureOk_sound _ _ _ _ _ (List.all_eq_true.mp (List.all_eq_true.mp measure1_K tv h) q (List.mem_range.mpr hq))
+  | 2, h => exact measureOk_sound _ _ _ _ _ (List.all_eq_true.mp (List.all_eq_true.mp measure2_K tv h) q (List.mem_range.mpr hq))
+  | 0, h => cases h
+  | _ + 3, h => cases h
+
+theorem reset_exhaustive (n : Nat) (tv : Pair) (h : tv ∈ statesOf n) (q : Nat) (hq : q < n) :
+    ResetAgrees params n (statesOf n) tv q := by
+  rw [params_eq]
+  match n, h with
+  | 1, h => exact resetOk_sound _ _ _ _ _ (List.all_eq_true.mp (List.all_eq_true.mp reset1_K tv h) q (List.mem_range.mpr hq))
+  | 2, h => exact resetOk_sound _ _ _ _ _ (List.all_eq_true.mp (List.all_eq_true.mp reset2_K tv h) q (List.mem_range.mpr hq))
+  | 0, h => cases h
+  | _ + 3, h => cases h
+
+theorem pair_exhaustive (n : Nat) (tv : Pair) (h : tv ∈ statesOf n) :
+    Stabilizes tv.1 tv.2 ∧ tv.1.normalize params.ph = .ok tv.1 ∧ Canonical tv.1 ∧ Z8.canonRay tv.2 = tv.2 := by
+  have key : (pairOk paramsK tv && rrefB tv.1) = true := by
+    match n, h with
+    | 1, h => exact List.all_eq_true.mp pair1_K tv h
+    | 2, h => exact List.all_eq_true.mp pair2_K tv h
+    | 0, h => cases h
+    | _ + 3, h => cases h
+  rw [params_eq]
+  simp only [pairOk, Bool.and_eq_true, beq_iff_eq] at key
+  exact ⟨key.1.1.1, key.1.1.2, key.2, key.1.2⟩
+
+theorem states_inj (n : Nat) : ∀ a ∈ statesOf n, ∀ b ∈ statesOf n, (a.2 = b.2 → a = b) ∧ (a.1 = b.1 → a = b) := by
+  intro a ha b hb
+  have key : (nodupBy (fun a b : Pair => a.1 == b.1) (statesOf n) && nodupBy (fun a b : Pair => a.2 == b.2) (statesOf n)) = true := by
+    match n with
+    | 1 => exact nodup1_K
+    | 2 => exact nodup2_K
+    | 0 => rfl
+    | _ + 3 => rfl
+  rw [Bool.and_eq_true] at key
+  constructor
+  · intro h
+    exact nodupBy_inj _ (fun x y => by rw [Bool.eq_iff_iff]; simp [eq_comm]) _ key.2 a ha b hb (by simpa using h)
+  · intro h
+    exact nodupBy_inj _ (fun x y => by rw [Bool.eq_iff_iff]; simp [eq_comm]) _ key.1 a ha b hb (by simpa using h)
+
+theorem closure_eq (n : Nat) (hn : n = 1 ∨ n = 2) : closure params n 50 = some (statesOf n) := by
+  rw [params_eq]
+  rcases hn with rfl | rfl
+  · exact closure1_K
+  · exact closure2_K
+
+theorem start_mem (n : Nat) (hn : n = 1 ∨ n = 2) : start n ∈ statesOf n := by
+  rcases hn with rfl | rfl <;> decide +kernel
+
+/-! ### histories -/
+
+/-- States reachable from `|0…0⟩` by any history of library stabilizer gates (any placement), collapses
+of a random qubit to either outcome, and resets whose correct result is a pure state — the tableau side
+computed by the model, the vector side by the state-vector semantics. -/
+inductive Reach (n : Nat) : Pair → Prop
+  | start : Reach n (start n)
+  | gate (tv : Pair) (gb : SGate × List Nat) (t' : Tab) : Reach n tv → gb ∈ gateOps n →
+      stepT params tv.1 gb.1 gb.2 = .ok t' → Reach n (t', stepV n tv.2 gb.1 gb.2)
+  | collapse (tv : Pair) (q i : Nat) (b : Bool) (t' : Tab) : Reach n tv → q < n →
+      tv.1.measure q = .ok (.random i) → tv.1.collapse params.ph i q b = .ok t' →
+      Reach n (t', Z8.canonRay (proj n q b tv.2))
+  | reset (tv : Pair) (q : Nat) (w : Vec) (t' : Tab) : Reach n tv → q < n →
+      resetPure n q tv.2 = some w → tv.1.reset params.ph q = .ok t' → Reach n (t', w)
+
+theorem reach_mem (n : Nat) (hn : n = 1 ∨ n = 2) (tv : Pair) (h : Reach n tv) : tv ∈ statesOf n := by
+  induction h with
+  | start => exact start_mem n hn
+  | gate tv gb t' _ hgb hs ih =>
+    obtain ⟨t'', e, hm⟩ := gates_exhaustive n tv ih gb hgb
+    rw [hs] at e; cases e; exact hm
+  | collapse tv q i b t' _ hq hm hc ih =>
+    rcases measure_exhaustive n tv ih q hq with ⟨b', e, _⟩ | ⟨i', e, _, hall⟩
+    · rw [hm] at e; cases e
+    · rw [hm] at e; cases e
+      obtain ⟨t'', e2, hmem⟩ := hall b
+      rw [hc] at e2; cases e2; exact hmem
+  | reset tv q w t' _ hq hw hr ih =>
+    obtain ⟨t'', e, h1, _⟩ := reset_exhaustive n tv ih q hq
+    rw [hr] at e; cases e; exact h1 w hw
+
+theorem history_independent (n : Nat) (hn : n = 1 ∨ n = 2) (t1 t2 : Tab) (ψ : Vec)
+    (h1 : Reach n (t1, ψ)) (h2 : Reach n (t2, ψ)) : t1 = t2 := by
+  have := (states_inj n _ (reach_mem n hn _ h1) _ (reach_mem n hn _ h2)).1 rfl
+  exact congrArg Prod.fst this
+
 end Q1t.Proofs.Tableau
